@@ -309,6 +309,28 @@ def match_known(known, rec):
 # main
 # ---------------------------------------------------------------------------------------------
 
+def anchors_changed(pid):
+    """staleness sentinel: which of the property's anchored source files differ from the digests committed
+    with the model (anchors.sha256.json). A changed digest is never by itself a violation; it makes the
+    quick tier explore with the thorough generators' bounds."""
+    try:
+        digests = json.load(open(os.path.join(ROOT, "anchors.sha256.json")))
+        files = []
+        for line in open(os.path.join(ROOT, "properties.jsonl")):
+            pr = json.loads(line)
+            if pr["id"] == pid:
+                files = pr["anchors"]["files"]
+        changed = []
+        for f in files:
+            fp = os.path.join(REPO, f)
+            cur = hashlib.sha256(open(fp, "rb").read()).hexdigest() if os.path.exists(fp) else "missing"
+            if digests.get(f) != cur:
+                changed.append(f)
+        return changed
+    except Exception as e:
+        return ["<sentinel unavailable: %s>" % e]
+
+
 def write_replay(pid, tier, seed, kind, recs, note=""):
     os.makedirs(REPLAYS, exist_ok=True)
     name = f"{pid}-{kind}-{tier}-{seed}.json"
@@ -363,6 +385,7 @@ def main(argv):
     cmp_ = Comparison()
     extra = {}
     crashes = []
+    rtier = tier          # the tier whose generators produced the transcript (recorded in replay files)
     harness_fail = None
     if not os.path.exists(DRIVER):
         broken.append("kdriver was not built")
@@ -372,11 +395,19 @@ def main(argv):
         if rc != 0:
             harness_fail = out[-3000:]
         else:
-            ctx = {"tier": tier, "seed": seed, "pid": pid, "only": only, "extra": extra}
+            changed = anchors_changed(pid) if not replay else []
+            gen_tier = tier
+            if changed and tier == "quick" and os.environ.get("VERIF_NO_ESCALATE") != "1":
+                gen_tier = "thorough"
+                log(f"[{pid}] anchored sources changed ({', '.join(changed[:4])}): exploring with the thorough generators")
+            extra["anchors_changed"] = changed
+            extra["generator_tier"] = gen_tier
+            rtier = gen_tier
+            ctx = {"tier": gen_tier, "seed": seed, "pid": pid, "only": only, "extra": extra}
             for kind, name in P["sources"]:
                 try:
                     if kind == "harness":
-                        tsv = run_harness_family(name, tier, seed, pid)
+                        tsv = run_harness_family(name, gen_tier, seed, pid)
                     else:
                         mod = importlib.import_module("vlib.progs." + name)
                         tsv = mod.generate(ctx)
@@ -392,16 +423,16 @@ def main(argv):
     # 5. verdicts
     if harness_fail is not None:
         # /repo no longer builds with the harness: the correspondence cannot be established
-        p = write_replay(pid, tier, seed, "build", [{"error": harness_fail}],
+        p = write_replay(pid, rtier, seed, "build", [{"error": harness_fail}],
                          "the harness (path dependency on /repo/konst) no longer compiles against /repo")
         violations.append((p, " no-failing-input-found"))
     if po["failed"]:
-        p = write_replay(pid, tier, seed, "obligation", [{"failed": po["failed"]}],
+        p = write_replay(pid, rtier, seed, "obligation", [{"failed": po["failed"]}],
                          "proof obligations that no longer check: " + "; ".join(po["failed"])[:800])
         violations.append((p, " no-failing-input-found"))
 
     if crashes:
-        p = write_replay(pid, tier, seed, "crash", crashes,
+        p = write_replay(pid, rtier, seed, "crash", crashes,
                          "the harness process running the real code crashed (abort / segfault / escaped panic); "
                          "the request after last_request_before_crash of that family is the failing input")
         violations.append((p, ""))
@@ -413,13 +444,13 @@ def main(argv):
         else:
             new_viol.append(rec)
     if new_viol:
-        p = write_replay(pid, tier, seed, "input", new_viol,
+        p = write_replay(pid, rtier, seed, "input", new_viol,
                          "implementation differs from std/the documented oracle on these inputs")
         violations.append((p, ""))
     corr = [r for r in cmp_.impl_ne_model]
     if corr and not new_viol:
         # correspondence broken and no failing input in the whole transcript
-        p = write_replay(pid, tier, seed, "correspondence", corr,
+        p = write_replay(pid, rtier, seed, "correspondence", corr,
                          "model and implementation disagree (the theorems no longer speak about this code); "
                          "no input was found on which the implementation differs from the oracle. "
                          "Broken correspondence: " + ", ".join(sorted({r['req'].split(' ')[0] for r in corr})[:12]))
